@@ -60,6 +60,7 @@ RunOps(ops, bs, em) ==
       [] o[1] = "propcount" -> RunOps(r, Put(bs, o[2], Num(2)), em)
       [] o[1] = "fresh"     -> [oc |-> "ok", cls |-> "", bs |-> o[2], em |-> em, pem |-> em]
       [] o[1] = "retnull"   -> [oc |-> "null", cls |-> "", bs |-> EmptyFn, em |-> em, pem |-> em]
+      [] o[1] = "retundef"  -> [oc |-> "null", cls |-> "", bs |-> EmptyFn, em |-> em, pem |-> em]
       [] o[1] = "nullif"    -> IF o[2] \in DOMAIN bs /\ bs[o[2]] = o[3]
                                THEN [oc |-> "null", cls |-> "", bs |-> EmptyFn, em |-> em, pem |-> em]
                                ELSE RunOps(r, bs, em)
